@@ -154,6 +154,10 @@ func (ssc *defaultStatefulSetControl) ListRevisions(set *apps.StatefulSet) ([]*k
 	res := []*kubeapps.ControllerRevision{}
 	for _, item := range append(revisions.Items, revisinsToUpgrade.Items...) {
 		local := item
+		// revisions controlled by somebody else are not part of this set's history
+		if ref := metav1.GetControllerOfNoCopy(&local); ref != nil && ref.UID != set.UID {
+			continue
+		}
 		res = append(res, &local)
 	}
 	return res, nil
